@@ -193,6 +193,10 @@ def run(tier, replay=None):
             requests.append({'id': 'm-lint', 'kind': 'lint', 'source': MULTI, 'filename': mfile, 'pos': [0, 0]})
             cfile = os.path.join(projdir, 'cond.py')
             requests.append({'id': 'p-alts', 'kind': 'alts', 'source': COND, 'filename': cfile, 'pos': [0, 0]})
+            # module-name completion before and after a request that looks inside builtin modules no interpreter loads at start-up
+            for k, (text, pos) in enumerate((('import _sy\n', [1, 10]), ('import faul\n', [1, 11]), ('import _symtable, faulthandler\n_symtable.\n', [2, 10]),
+                                            ('import faulthandler\nfaulthandler.dump\n', [2, 17]), ('from _sy', [1, 8]))):
+                requests.append({'id': 'p-modnames%d' % k, 'kind': 'assist', 'source': text, 'filename': ufile, 'pos': pos})
             # 3. the repository's own files: reads with several alternatives
             files = sorted(glob.glob(os.path.join(core.REPO, 'supp', '*.py')) + glob.glob(os.path.join(core.REPO, 'tests', '*.py')))
             disc = [{'id': 'd%d' % i, 'kind': 'discover', 'source': open(f).read(), 'filename': f, 'pos': [0, 0]} for i, f in enumerate(files)]
